@@ -62,6 +62,8 @@ def to_program(rng, hist, pid, seed, vers=None):
             o["keep_delete"] = KD
             if st[1]:
                 o["instant"] = True
+            if len(st) > 2 and st[2] == "all":
+                o.update({"repack_all": True, "max_repack": "unlimited", "no_resize": False, "cacheable_only": False})
             steps.append({"cmd": "prune", "opts": o})
         elif k == "tick":
             steps.append({"cmd": "tick", "dt": KD + 7})
@@ -106,6 +108,12 @@ def run(ctx):
                          ["tick"], ["prune", False]])
         # the overlapping backup adds nothing new: the next prune has nothing to do but to recover the marked packs
         directed.append([["backup", v], ["load"], ["forget", v], ["prune", False], ["stale", v], ["prune", False]])
+    # directed: content that was pruned away (its packs are marked and inside keep-delete) is backed up again into new packs, and
+    # the next prune repacks everything: the still-marked copies must not count as providing the blobs (seeded change
+    # C02-keepmarked-used-ids; pack ids are random, so which pack a prune picks for repacking is not repeatable without this)
+    for v, w in (("v1", "v2"), ("v2", "v3"), ("v3", "v1")):
+        directed.append([["backup", v], ["forget", v], ["prune", False], ["backup", v], ["prune", False, "all"]])
+        directed.append([["backup", v], ["backup", w], ["forget", v], ["prune", False], ["backup", v], ["forget", w], ["prune", False, "all"]])
     if q:
         hs = rng.sample(h4, 50) + rng.sample(h5, 50) + h7r[:30]
     else:
